@@ -642,6 +642,32 @@ void execute_member_assignment(StatementExecutor *executor,
             interpreter.assign_struct_member(obj_name, member_name,
                                              typed_value);
         }
+    } else if (node->right->node_type == ASTNodeType::AST_ARRAY_REF &&
+               [&]() {
+                   // 右辺が構造体配列の要素: o.mid = oa[1]
+                   Variable *right_array = interpreter.find_variable(
+                       interpreter.extract_array_name(node->right.get()));
+                   return right_array && right_array->is_array &&
+                          (right_array->is_struct ||
+                           right_array->type == TYPE_STRUCT) &&
+                          !right_array->is_pointer &&
+                          !right_array->is_reference;
+               }()) {
+        // 型付き評価は構造体配列の要素を数値 0 として返すため、一般処理では
+        // 何もコピーされない。要素は "oa[1]" という名前の構造体変数として
+        // 存在するので名前で解決し、o.mid = pt と同じ経路でコピーする。
+        // 添字式はここで一度だけ評価される
+        std::string right_element_name =
+            interpreter.extract_array_element_name(node->right.get());
+        Variable *right_var = interpreter.find_variable(right_element_name);
+        if (!right_var || !right_var->is_struct) {
+            throw std::runtime_error(
+                "Struct array element not found: " + right_element_name);
+        }
+        interpreter.sync_struct_members_from_direct_access(right_element_name);
+        right_var = interpreter.find_variable(right_element_name);
+        interpreter.assign_struct_member_struct(obj_name, member_name,
+                                                *right_var);
     } else if (node->right->node_type == ASTNodeType::AST_MEMBER_ACCESS) {
         // 構造体メンバアクセスの場合（original.name等）
         std::string right_obj_name;
